@@ -785,4 +785,10 @@ Section Proxy.
           let '((pe, m'), c) := cache_push limit m d (writes_of rs) in
           ((tee_results pe c 0 rs, pe), m')
     end.
+  (* every cache state a proxy can reach from an empty cache by any sequence of fetches
+     (any descriptors, base contents, caller read patterns, limits, StopCaching settings) *)
+  Inductive proxy_reach : mem -> Prop :=
+  | proxy_reach_nil : proxy_reach []
+  | proxy_reach_fetch limit stop m d comb evs ks rs ce m' :
+      proxy_reach m -> proxy_fetch limit stop m d comb evs ks = ((rs, ce), m') -> proxy_reach m'.
 End Proxy.
